@@ -133,6 +133,55 @@ func TestWorker(t *testing.T) {
 		}
 	}
 
+	// the run in progress, for the stall watcher
+	var cur struct {
+		idx  int
+		tape *core.Tape
+	}
+	core.StartStallWatch(40*time.Second, func(si core.StallInfo) {
+		class := "machinery:stall"
+		detail := fmt.Sprintf("the scheduler saw no quiescent point for %v of real time after %d steps (%d tasks parked, actors enabled=%v): some goroutine is neither parked nor durably blocked", si.Waited.Round(time.Second), si.Steps, si.Parked, si.ActorsEnabled)
+		if si.Parked == 0 && !si.ActorsEnabled && !si.ClientsDone {
+			class = "violation:no-progress"
+			detail = fmt.Sprintf("after %d scheduler steps no goroutine is schedulable, the call has not returned and nothing has changed for %v of real time: a goroutine is blocked on an object outside the simulation (a package-level channel or lock) or spins without reaching a yield point", si.Steps, si.Waited.Round(time.Second))
+		}
+		switch cfg.Mode {
+		case "replay":
+			sum.Runs = 1
+			sum.Determinism = map[string]string{"class": class, "detail": detail, "log_hash": si.Sim.LogHash()}
+		case "determinism":
+			if sum.Determinism == nil {
+				sum.Determinism = map[string]string{}
+			}
+			sum.Determinism[fmt.Sprint(cur.idx)] = "stall|" + class + "|" + si.Sim.LogHash()
+		default:
+			sum.Runs++
+			if class[:9] == "machinery" {
+				sum.Machinery = append(sum.Machinery, fmt.Sprintf("run %d: %s %s", cur.idx, class, detail))
+			} else {
+				var fl []string
+				for k, v := range cfg.Findings {
+					if v {
+						fl = append(fl, k)
+					}
+				}
+				sort.Strings(fl)
+				used := cur.tape.Used()
+				rf := ReplayFile{Property: cfg.Property, Class: class, Detail: detail, VerifSeed: cfg.VerifSeed, RunIndex: cur.idx, RunSeed: runSeed(&cfg, cur.idx), Tier: cfg.Tier,
+					Tape: used, TapeFull: used, Worker: cfg.Worker, NWorkers: cfg.NWorkers, MaxProcs: cfg.MaxProcs, TapeOrig: len(used), Findings: fl, Strategy: si.Sim.Strategy, LogHash: si.Sim.LogHash(),
+					Scenario: "not minimised: the run never came back (the process had to be ended)", Schedule: si.Sim.Trace}
+				rb, _ := json.MarshalIndent(rf, "", " ")
+				os.MkdirAll(cfg.ReplayDir, 0o755)
+				rp := filepath.Join(cfg.ReplayDir, fmt.Sprintf("%s-seed%d-run%d.json", cfg.Property, cfg.VerifSeed, cur.idx))
+				os.WriteFile(rp, rb, 0o644)
+				sum.Violations = append(sum.Violations, rp)
+				sum.Counters["exploration_cut_short_after_stalled_run"] = 1
+			}
+		}
+		write()
+		os.Exit(0)
+	})
+
 	switch cfg.Mode {
 	case "replay":
 		b, err := os.ReadFile(cfg.Replay)
@@ -152,7 +201,8 @@ func TestWorker(t *testing.T) {
 		c := rc(rf.RunIndex, true)
 		c.VerifSeed = rf.VerifSeed
 		c.Tier = rf.Tier
-		res := p.Run(t, core.ReplayTape(rf.Tape), c)
+		cur.idx, cur.tape = rf.RunIndex, core.ReplayTape(rf.Tape)
+		res := p.Run(t, cur.tape, c)
 		sum.Runs = 1
 		sum.Determinism = map[string]string{"class": res.Class, "detail": res.Detail, "log_hash": res.LogHash}
 		sum.Samples = append(sum.Samples, res.Scenario)
@@ -161,7 +211,8 @@ func TestWorker(t *testing.T) {
 	case "determinism":
 		sum.Determinism = map[string]string{}
 		for _, idx := range cfg.Indices {
-			res := p.Run(t, core.NewTape(runSeed(&cfg, idx)), rc(idx, false))
+			cur.idx, cur.tape = idx, core.NewTape(runSeed(&cfg, idx))
+			res := p.Run(t, cur.tape, rc(idx, false))
 			sum.Determinism[fmt.Sprint(idx)] = digest(res)
 			sum.Runs++
 		}
@@ -185,6 +236,7 @@ func TestWorker(t *testing.T) {
 		tape := core.NewTape(seed)
 		wantSample := len(sum.Samples) < 3 && (idx/cfg.NWorkers)%97 == 1
 		t0 := time.Now()
+		cur.idx, cur.tape = idx, tape
 		res := p.Run(t, tape, rc(idx, wantSample))
 		if os.Getenv("VERIF_DEBUG") != "" {
 			fmt.Fprintf(os.Stderr, "run %d class=%q steps=%d strat=%s wall=%v detail=%s\n", idx, res.Class, res.Steps, res.Strategy, time.Since(t0), res.Detail)
